@@ -1,3 +1,4 @@
+import re
 """C08 — type annotations are optional and never change the generated code (DESIGN §4 C08)."""
 from hir import nodes, walk, fn_body, callee, last, line_of, peel, pp, norm_path, pat_bindings
 from engines import ty_is, ty_mentions
@@ -462,6 +463,24 @@ def unknown_is_deferred(F, rep):
                                "arm below rejects every callee that is not Pure there: a call of a not-yet-typed callee inside a `pu` "
                                "function (`pu s -> int do s.area(2) end`) is rejected although `s: Shape` with a `pu` field is accepted"
                                % last(fn["_path"], 2), line_of(i_))
+                        # .. and a callee whose purity is still *open* - what the annotation `fn int -> int` ("any purity") and a field
+                        # declared `f: fn int -> int` give - is in the same position as the callee that is not known yet: the call settles
+                        # it.  A guard that refuses everything that is not Pure refuses the open purity too, so the annotated program is
+                        # rejected where the erased one (callee unknown -> made Pure -> unified with the field) is accepted.
+                        refusing = [g_ for a2 in m["arms"] for g_ in nodes(a2["body"], "If")
+                                    if "inside_pure" in pp(g_["c"]) and "Purity::Pure" in pp(g_["c"]) and tc.is_err_value(g_["t"])]
+                        settling = [g_ for a2 in m["arms"] for g_ in nodes(a2["body"], "If")
+                                    if "inside_pure" in pp(g_["c"]) and "Purity::Undefined" in pp(g_["c"]) and not tc.is_err_value(g_["t"])
+                                    and any(callee(u_) == "sylt_compiler::typechecker::TypeChecker::unify" for u_ in nodes(g_["t"], "MethodCall"))]
+                        behind = {id(x_) for g_ in settling for x_ in nodes(g_.get("e") or {})}
+                        open_refused = [g_ for g_ in refusing if re.search(r"!\s*match\b[^{]*\{\s*Purity::Pure\s*=>\s*true", pp(g_["c"]))
+                                        and "Purity::Undefined" not in pp(g_["c"]) and id(g_) not in behind]
+                        rep.ob("ANNOTATION-PERMISSIVE", "%s|call|open-purity-is-settled-like-an-unknown-callee" % last(fn["_path"], 2), not open_refused,
+                               "a callee whose purity is still open is not refused inside a pure function" if not open_refused else
+                               "inside a pure function %s refuses every callee that is not Pure - one whose purity is still open (`p: Foo` with "
+                               "`Foo :: blob { f: fn int -> int }`, `p.f(1)`) included - while a callee that is not known yet is made Pure and goes "
+                               "through: `g :: pu p: Foo -> int do p.f(1) end` is rejected, `g :: pu p -> int do p.f(1) end` is accepted (with a "
+                               "`pu` function in the field)" % last(fn["_path"], 2), line_of(open_refused[0]) if open_refused else line_of(i_))
             declared = declared or settled
             rep.ob("INFERENCE", "%s|catch-all=>error#%d" % (last(fn["_path"], 2), k), declared,
                    "a type that is still unknown is given the shape the operation needs before the split" if settled else
